@@ -102,12 +102,72 @@ class _Normalizer:
             self._each_function(m, self._yield_from)
             self._each_function(m, self._generator_form)
             self._each_function(m, self._augment_function)
+            self._each_function(m, self._prune_constant_tests)
             self._each_function(m, self._desugar_function)
             self._each_function(m, self._copy_propagate)
             self._each_function(m, self._fold_function)
             self._each_function(m, self._order_comparisons)
             self._each_function(m, self._positional_calls)
             self._each_function(m, self._truth_contexts)
+
+    # ------------------------------------------------------------------ 8. tests on literals (left behind by inlining)
+    def _prune_constant_tests(self, fnode, cls, local):
+        """``if None is not None: A else: B`` -> ``B``: a test whose operands are literals (a default ``None`` substituted for a
+        parameter by helper inlining) is decided here, so no reader explores the dead branch"""
+        me = self
+
+        def const_truth(t):
+            if isinstance(t, ast.Constant):
+                return bool(t.value)
+            if isinstance(t, ast.UnaryOp) and isinstance(t.op, ast.Not):
+                v = const_truth(t.operand)
+                return None if v is None else not v
+            if isinstance(t, ast.Compare) and len(t.ops) == 1 and isinstance(t.left, ast.Constant) \
+                    and isinstance(t.comparators[0], ast.Constant):
+                a, b = t.left.value, t.comparators[0].value
+                op = t.ops[0]
+                if isinstance(op, (ast.Is, ast.IsNot)):
+                    if a is None or b is None or isinstance(a, bool) or isinstance(b, bool):
+                        same = a is b
+                        return same if isinstance(op, ast.Is) else not same
+                    return None
+                if isinstance(op, (ast.Eq, ast.NotEq)) and type(a) is type(b):
+                    return (a == b) if isinstance(op, ast.Eq) else (a != b)
+            return None
+
+        def walk_body(body):
+            out = []
+            for st in body:
+                if isinstance(st, (ast.FunctionDef, ast.AsyncFunctionDef, ast.ClassDef)):
+                    out.append(st)
+                    continue
+                for fld in ('body', 'orelse', 'finalbody'):
+                    v = getattr(st, fld, None)
+                    if isinstance(v, list) and v and isinstance(v[0], ast.stmt):
+                        setattr(st, fld, walk_body(v))
+                if isinstance(st, ast.Try):
+                    for h in st.handlers:
+                        h.body = walk_body(h.body)
+                if isinstance(st, ast.If):
+                    v = const_truth(st.test)
+                    if v is not None:
+                        me.stats['constant_tests'] = me.stats.get('constant_tests', 0) + 1
+                        taken = st.body if v else st.orelse
+                        out.extend(taken)
+                        continue
+                out.append(st)
+            if not out:
+                p = ast.Pass()
+                out = [p]
+            return out
+        fnode.body = walk_body(fnode.body)
+        for n in ast.walk(fnode):
+            if isinstance(n, ast.IfExp):
+                v = const_truth(n.test)
+                if v is not None:
+                    keep = n.body if v else n.orelse
+                    n.test, n.body, n.orelse = ast.Constant(value=True), keep, keep
+        ast.fix_missing_locations(fnode)
 
     # ------------------------------------------------------------------ 7. locals that cache an attribute
     def _copy_propagate(self, fnode, cls, local):
@@ -251,6 +311,35 @@ class _Normalizer:
                     if any(isinstance(x, (ast.Yield, ast.YieldFrom, ast.Await, ast.Lambda, ast.NamedExpr, ast.ListComp,
                                           ast.SetComp, ast.DictComp, ast.GeneratorExp)) for x in ast.walk(e)):
                         continue
+                    # constants the expression names (``self.ACCEPTANCE``, a module-level name) are folded first: once the
+                    # expression sits in another function, ``self`` is an arbitrary receiver
+                    slf = fi.node.args.args[0].arg
+                    me = self
+                    saved_m = getattr(self, 'm', None)
+                    self.m = m
+                    self.globals_rebound = _global_decls(m.tree)
+
+                    class F(ast.NodeTransformer):
+                        def visit_Attribute(self_, n):
+                            if isinstance(n.ctx, ast.Load) and isinstance(n.value, ast.Name) and n.value.id == slf:
+                                k = me._new_class_const(c, n.attr)
+                                if k is not None:
+                                    return ast.copy_location(k, n)
+                                return n
+                            if isinstance(n.ctx, ast.Load):
+                                k = me._const_of(n, {slf})
+                                if k is not None:
+                                    return ast.copy_location(k, n)
+                            return self_.generic_visit(n)
+
+                        def visit_Name(self_, n):
+                            if isinstance(n.ctx, ast.Load) and n.id != slf:
+                                k = me._const_of(n, {slf})
+                                if k is not None:
+                                    return ast.copy_location(k, n)
+                            return n
+                    e = F().visit(copy.deepcopy(e))
+                    self.m = saved_m
                     self.props[name] = (fi, e)
 
     def _inline_properties(self, fnode, cls, local):
@@ -325,11 +414,38 @@ class _Normalizer:
         visit(m.tree, None, set())
 
     # ------------------------------------------------------------------ 3. constants
-    def _const_of(self, e: ast.expr, local: Set[str]) -> Optional[ast.expr]:
+    def _new_class_const(self, kls, name) -> Optional[ast.expr]:
+        """the literal a class-level constant introduced after the pinned tree is bound to, if nothing stores to that attribute
+        name anywhere and no class of the same family binds it again"""
+        from .oracles.inventory import NAMES
+        hit = kls.find_attr(name)
+        if hit is None or name.startswith('__') or name in self._stored_attrs():
+            return None
+        owner, val = hit
+        if '%s.%s' % (owner.key, name) in NAMES or not _literal_only(val):
+            return None
+        fam = list(owner.mro()) + list(self.repo.subclasses(owner)) + list(self.repo.subclasses(kls))
+        if any(k is not owner and (name in k.attrs or name in k.methods) for k in fam):
+            return None
+        try:
+            v = self.repo.fold(val, owner.module, owner)
+        except Exception:
+            return None
+        if type(v) is tuple and v and all(type(x) in (int, str, bytes, float) for x in v):
+            return ast.Tuple(elts=[ast.Constant(value=x) for x in v], ctx=ast.Load())
+        if type(v) in (int, str, bytes, float):
+            return ast.Constant(value=v)
+        return None
+
+    def _const_of(self, e: ast.expr, local: Set[str], cls=None) -> Optional[ast.expr]:
         from .srcmodel import NotConst
         root = e
         while isinstance(root, ast.Attribute):
             root = root.value
+        if isinstance(e, ast.Attribute) and isinstance(e.value, ast.Name) and e.value.id in ('self', 'cls') and cls is not None \
+                and e.value.id not in (local - {'self', 'cls'}):
+            # ``self.NAME`` / ``cls.NAME`` inside the class that owns a new constant nobody overrides
+            return self._new_class_const(cls, e.attr)
         if not isinstance(root, ast.Name) or root.id in local or root.id in ('self', 'cls'):
             return None
         try:
@@ -338,17 +454,32 @@ class _Normalizer:
             return None
         except Exception:
             return None
-        if not (isinstance(r, tuple) and r and r[0] == 'assign'):
-            return None
-        _, mod, name = r
-        vals = mod.assigns.get(name, [])
-        if len(vals) != 1 or name in _global_decls(mod.tree) or not _literal_only(vals[0]):
-            return None
-        if mod is self.m and name in self.globals_rebound:
-            return None
-        try:
-            v = self.repo.fold(vals[0], mod)
-        except NotConst:
+        if isinstance(r, tuple) and r and r[0] == 'classattr':
+            # ``Class.NAME`` / ``module.Class.NAME``: a class-level constant, named through the class (not through an instance,
+            # where a subclass could override it), bound once to a literal and never stored to anywhere in the package
+            _, kls, name = r
+            from .oracles.inventory import NAMES
+            if name in self._stored_attrs() or name.startswith('__') or '%s.%s' % (kls.key, name) in NAMES:
+                return None      # (class attributes of the pinned tree are what the rules talk about: they keep their names)
+            val = kls.attrs.get(name)
+            if val is None or not _literal_only(val):
+                return None
+            try:
+                v = self.repo.fold(val, kls.module, kls)
+            except Exception:
+                return None
+        elif isinstance(r, tuple) and r and r[0] == 'assign':
+            _, mod, name = r
+            vals = mod.assigns.get(name, [])
+            if len(vals) != 1 or name in _global_decls(mod.tree) or not _literal_only(vals[0]):
+                return None
+            if mod is self.m and name in self.globals_rebound:
+                return None
+            try:
+                v = self.repo.fold(vals[0], mod)
+            except NotConst:
+                return None
+        else:
             return None
         if type(v) is tuple and v and all(type(x) in (int, str, bytes, float) for x in v):
             # an immutable table of scalars reads as its literal
@@ -356,6 +487,20 @@ class _Normalizer:
         if type(v) not in (int, str, bytes, float):
             return None
         return ast.Constant(value=v)
+
+    def _stored_attrs(self) -> Set[str]:
+        """attribute names stored to anywhere in the package (``x.name = ...``, ``setattr(x, 'name', ...)``)"""
+        if getattr(self, '_stored_attr_names', None) is None:
+            out: Set[str] = set()
+            for m in self.repo.modules.values():
+                for n in ast.walk(m.tree):
+                    if isinstance(n, ast.Attribute) and isinstance(n.ctx, (ast.Store, ast.Del)):
+                        out.add(n.attr)
+                    elif isinstance(n, ast.Call) and isinstance(n.func, ast.Name) and n.func.id in ('setattr', 'delattr') \
+                            and len(n.args) >= 2 and isinstance(n.args[1], ast.Constant):
+                        out.add(n.args[1].value)
+            self._stored_attr_names = out
+        return self._stored_attr_names
 
     def _fold_function(self, fnode, cls, local: Set[str]):
         me = self
@@ -375,7 +520,7 @@ class _Normalizer:
 
             def visit_Attribute(self, node):
                 if isinstance(node.ctx, ast.Load):
-                    c = me._const_of(node, local)
+                    c = me._const_of(node, local, cls)
                     if c is not None:
                         me.stats['constants'] += 1
                         return ast.copy_location(c, node)
@@ -387,6 +532,16 @@ class _Normalizer:
             T().visit(fnode)
         finally:
             fnode.args = saved
+        # a method's defaults are evaluated in the class body: a bare name there may be a new class-level constant
+        if cls is not None and fnode in [f_.node for f_ in list(cls.methods.values()) + list(cls.setters.values())]:
+            a = fnode.args
+            for lst in (a.defaults, a.kw_defaults):
+                for i, d in enumerate(lst):
+                    if isinstance(d, ast.Name) and d.id in cls.attrs:
+                        c = self._new_class_const(cls, d.id)
+                        if c is not None:
+                            lst[i] = ast.copy_location(c, d)
+                            self.stats['constants'] += 1
 
     # ------------------------------------------------------------------ 1e. yield from
     def _yield_from(self, fnode, cls, local):
@@ -523,6 +678,51 @@ class _Normalizer:
                 node = ast.If(test=v.test, body=split(a), orelse=split(b))
                 ast.copy_location(node, st)
                 return [node]
+            # ``return a() or b()`` / ``x = a() and b()``: the later operands run only when the earlier ones let them -- as
+            # statements, so that a path-sensitive reader sees the calls on the paths on which they happen
+            if isinstance(st, (ast.Return, ast.Assign)) and isinstance(v, ast.BoolOp) and not _has_yield(v) \
+                    and any(isinstance(n, ast.Call) for x in v.values[1:] for n in ast.walk(x)) \
+                    and (isinstance(st, ast.Return) or (len(st.targets) == 1 and isinstance(st.targets[0], ast.Name))):
+                first = v.values[0]
+                rest = v.values[1] if len(v.values) == 2 else ast.BoolOp(op=v.op, values=v.values[1:])
+                me.stats['boolop_stmt'] = me.stats.get('boolop_stmt', 0) + 1
+                pre = []
+                if isinstance(st, ast.Assign):
+                    name = st.targets[0].id
+                    pre.append(ast.Assign(targets=[ast.Name(id=name, ctx=ast.Store())], value=first))
+                    again = ast.Assign(targets=[ast.Name(id=name, ctx=ast.Store())], value=rest)
+                    test = ast.Name(id=name, ctx=ast.Load())
+                    if isinstance(v.op, ast.Or):
+                        test = ast.UnaryOp(op=ast.Not(), operand=test)
+                    node = ast.If(test=test, body=[again], orelse=[])
+                    out = pre + [node]
+                else:
+                    if _is_simple(first):
+                        held = first
+                    else:
+                        me.counter += 1
+                        name = '__b%d' % me.counter
+                        pre.append(ast.Assign(targets=[ast.Name(id=name, ctx=ast.Store())], value=first))
+                        held = ast.Name(id=name, ctx=ast.Load())
+                    r_first = ast.Return(value=copy.deepcopy(held))
+                    r_rest = ast.Return(value=rest)
+                    if isinstance(v.op, ast.Or):
+                        node = ast.If(test=copy.deepcopy(held), body=[r_first], orelse=[r_rest])
+                    else:
+                        node = ast.If(test=copy.deepcopy(held), body=[r_rest], orelse=[r_first])
+                    out = pre + [node]
+                for x in out:
+                    ast.copy_location(x, st)
+                    ast.fix_missing_locations(x)
+                res = []
+                for x in out:
+                    if isinstance(x, ast.If):
+                        x.body = [y for z in x.body for y in split(z)]
+                        x.orelse = [y for z in x.orelse for y in split(z)]
+                        res.append(x)
+                    else:
+                        res.extend(split(x))
+                return res
             return [st]
 
         def walk_body(body: List[ast.stmt]) -> List[ast.stmt]:
